@@ -115,7 +115,7 @@ def number(recipe: Any, counter: list[int] | None = None) -> Any:
         else:
             new_kids.append((fname, tuple(number(c, counter) for c in val)))
     p = dict(props)
-    if cls in ("VLeaf", "VSubLeaf", "VMixed", "VInh", "VFalsy", "VTwinA", "VTwinB", "VNonCmp", "VNonInit"):
+    if cls in ("VLeaf", "VSubLeaf", "VMixed", "VInh", "VFalsy", "VTwinA", "VTwinB", "VNonCmp", "VNonInit", "VMixLeaf", "VLateMix", "VDiamond", "VIter", "VSlot"):
         p.setdefault("v", me)
     if cls == "VStr2":
         p.setdefault("a", f"s{me}")
@@ -141,3 +141,19 @@ def falsify(recipe: Any) -> Any:
     if last is None:
         return recipe
     return edit_at(recipe, last, lambda r: ("VFalsy", r[1], r[2], r[3]))
+
+
+def exotic_shapes() -> list[Any]:
+    """A handful of trees over the node classes with unusual Python-level behaviour or
+    definitions: iterable (VIter), falsy (VFalsy), two tuple fields (VTwoSeq), mixins in the MRO,
+    slots=True, fields with the less common dataclass flags."""
+    from .zoo import R
+
+    L = lambda: R("VLeaf")  # noqa: E731
+    return [number(x) for x in (
+        R("VReq", child=R("VIter", items=(L(), L()))),
+        R("VMixed", first=R("VIter", items=(L(),)), items=(R("VIter"), L()), one=R("VFalsy")),
+        R("VTwoSeq", left=(L(), R("VIter", items=(L(),))), right=(L(),), mid=R("VFalsy")),
+        R("VMany", items=(R("VMixLeaf"), R("VSlot", kid=L()), R("VFlags", {"h": 1}), R("VDiamond"))),
+        R("VSlot", kid=R("VTwoSeq", left=(L(),), right=(L(), L()))),
+    )]
